@@ -260,6 +260,16 @@ def main(run_fn_by_pid, argv):
             lib_tb, item = e.tb, e.item
         elif not isinstance(e, (Machinery, tlc.TLCFailure)) and par.innermost_in_repo(sys.exc_info()[2]):
             lib_tb, item = traceback.format_exc(), None
+        INTERP = (ValueError, IndexError, TypeError, KeyError, AttributeError, ZeroDivisionError, FloatingPointError, OverflowError, AssertionError)
+        if lib_tb is None and (isinstance(e, par.JudgeError) or (isinstance(e, INTERP + (__import__("numpy").linalg.LinAlgError,))
+                                                                  and not isinstance(e, (Machinery, tlc.TLCFailure)))):
+            # the harness could not interpret what the library returned (see par.JudgeError)
+            tbs = e.tb if isinstance(e, par.JudgeError) else traceback.format_exc()
+            last = [ln for ln in tbs.strip().splitlines() if ln.strip()][-1]
+            ctx.fail("library", "OutputNotInterpretable", "exception",
+                     {"error": last, "traceback": tbs[-3000:], "case": getattr(e, "item", None),
+                      "meaning": "the check's judging code raised on a value returned by the library; this does not happen on the unchanged tree"})
+            return ctx.finish("model_checking")
         if lib_tb is None:
             raise_again = e
         else:
